@@ -183,8 +183,14 @@ func (r *c12run) forgeBlock(parent *WBlock) *WBlock {
 func runC12(c *Ctx) {
 	t := c.Scen
 	sc := genChainScenario(c, false)
-	if sc.pre < 8 {
-		sc.pre += 8 // the node's chain check of untrusted peers asks for headers six blocks back
+	if t.Bool(1, 4) {
+		// a young chain: the node's chain check of untrusted peers asks for headers six blocks
+		// back, which does not exist yet (empty locator, first header at height 1)
+		sc.pre = pickFrom(t, 0, 1, 2)
+		sc.initLen = pickFrom(t, 1, 2, 3, 4)
+		c.Probe("short_chain")
+	} else if sc.pre < 8 {
+		sc.pre += 8
 	}
 	sc.startFound = true
 	cr := newChainRun(c, sc)
